@@ -52,6 +52,11 @@ func TestVerifReplay(t *testing.T) {
 		guard("ArrayInfo", b, func() { ArrayInfo(b) })
 		guard("MapInfo", b, func() { MapInfo(b) })
 		guard("ListLength", b, func() { _, _ = ListLength(b) })
+		guard("ParseDiagnostic", b, func() { _, _ = ParseDiagnostic(b) })
+		for _, pre := range [][]byte{{0x81}, {0x9f}, {0xa1, 0x00}, {0xbf}, {0xc1}, {0x5f}, {0x7f}, {0xd9, 0x01, 0x02}} {
+			nested := append(append([]byte(nil), pre...), b...)
+			guard("ParseDiagnostic", nested, func() { _, _ = ParseDiagnostic(nested) })
+		}
 		guard("DecodeIdFromList", b, func() { _, _ = DecodeIdFromList(b) })
 		for _, off := range []int{0, 1, 2, 9} {
 			guard("cborArrayHeaderSizeFromBytes", b, func() { _, _ = cborArrayHeaderSizeFromBytes(b, off) })
